@@ -271,6 +271,8 @@ class InterpCore(object):
             return ep.sym("pi")
         if isinstance(v, LookupV):
             return ep.app(("lookupval", v.key()), [])
+        if isinstance(v, Unknown):
+            return ep.app(("unknown", v.tag), [])
         self.err(node, "numeric value expected, got %r" % (v,))
 
     def e_BinOp(self, node, env):
@@ -400,11 +402,11 @@ class InterpCore(object):
                 r = a.v is b.v
             elif (isinstance(a, Const) and a.v is None) or (isinstance(b, Const) and b.v is None):
                 other = b if (isinstance(a, Const) and a.v is None) else a
-                if isinstance(other, (Num, ListV, DictV, InstV, FuncV, StrV, BufV, SeqV, ClassV, SortedV)):
-                    r = False
-                elif isinstance(other, (Opaque, Phi, LookupV, Unknown)):
+                if isinstance(other, (Opaque, Phi, LookupV, Unknown)):
                     c = Cond("isnone", other)
                     return c if opn == "Is" else neg_cond(c)
+                elif not isinstance(other, (Undefined,)):
+                    r = False
             elif a is b:
                 r = True
             if r is None:
@@ -577,6 +579,13 @@ class InterpCore(object):
 
     def e_GeneratorExp(self, node, env):
         return self.comprehension(node, env, "list")
+
+    def e_DictComp(self, node, env):
+        fake = ast.ListComp(elt=ast.Tuple(elts=[node.key, node.value], ctx=ast.Load()), generators=node.generators)
+        ast.copy_location(fake, node)
+        ast.fix_missing_locations(fake)
+        lst = self.comprehension(fake, env, "list")
+        return self.call(ExtV("builtins.dict"), [lst], {}, node, env)
 
     def e_SetComp(self, node, env):
         return self.comprehension(node, env, "set")
